@@ -137,6 +137,54 @@ func runWorkload(w *wl.Workload) (out *runOut) {
 				out.err = "Commit: " + err.Error()
 				return
 			}
+		case "cwrite":
+			// concurrent writers (write merge): each writes one marker batch over its own keys with its own Sync
+			// option; a writer that asked for Sync and got nil must survive any crash after its call returned,
+			// whoever led the group its write was merged into
+			k := st.Parts
+			if k < 2 {
+				k = 2
+			}
+			bs := make([]*wl.Batch, k)
+			start := stor.OpCount()
+			var wg sync.WaitGroup
+			for j := 0; j < k; j++ {
+				b := &wl.Batch{ID: id, Sync: j < len(st.Syncs) && st.Syncs[j] && syncOK, StartIdx: start}
+				id++
+				b.Recs = []dbh.Rec{{K: wl.Marker(b.ID), V: []byte{1}}}
+				if j%2 == 0 {
+					// a multi-record batch through DB.Write; odd writers issue a single DB.Put of their marker
+					// (Put/Delete requests are merged by another path of the leader's loop than batches)
+					for ri := j; ri < len(st.Recs); ri += k {
+						rec := st.Recs[ri]
+						rec.K = append([]byte(fmt.Sprintf("\x02cw%05d.", b.ID)), rec.K...)
+						b.Recs = append(b.Recs, rec)
+					}
+				}
+				bs[j] = b
+			}
+			for j := 0; j < k; j++ {
+				wg.Add(1)
+				go func(b *wl.Batch) {
+					defer wg.Done()
+					var err error
+					if len(b.Recs) == 1 {
+						err = db.Put(b.Recs[0].K, b.Recs[0].V, &opt.WriteOptions{Sync: b.Sync})
+					} else {
+						err = db.Write(wl.MkBatch(b.Recs), &opt.WriteOptions{Sync: b.Sync})
+					}
+					b.AckIdx = stor.OpCount()
+					b.OK = err == nil
+				}(bs[j])
+			}
+			wg.Wait()
+			for _, b := range bs {
+				out.batches = append(out.batches, b)
+				if !b.OK {
+					out.err = "concurrent Write failed"
+					return
+				}
+			}
 		case "compact":
 			if err := db.CompactRange(util.Range{}); err != nil {
 				out.err = "CompactRange: " + err.Error()
@@ -769,6 +817,24 @@ func main() {
 		} else {
 			w = wl.GenWorkload(r, r.Range(nsteps/2, nsteps))
 		}
+		if wi%3 == 1 {
+			// write-merge family: groups of concurrent writers with mixed Sync options spliced into the workload
+			n := r.Range(6, 14)
+			for c := 0; c < n; c++ {
+				k := r.Range(2, 8)
+				st := wl.Step{Kind: "cwrite", Parts: k}
+				for j := 0; j < k; j++ {
+					st.Syncs = append(st.Syncs, r.Chance(1, 3))
+				}
+				nrec := r.Range(k, 3*k)
+				for x := 0; x < nrec; x++ {
+					st.Recs = append(st.Recs, dbh.Rec{K: []byte(fmt.Sprintf("k%03d", r.Intn(50))), V: []byte(fmt.Sprintf("v%d", r.Intn(1000000)))})
+				}
+				pos := r.Intn(len(w.Steps) + 1)
+				w.Steps = append(w.Steps[:pos], append([]wl.Step{st}, w.Steps[pos:]...)...)
+			}
+			res.Count("workloads_with_concurrent_writers", 1)
+		}
 		w.Seed = a.Seed*1000 + uint64(wi)
 		out := runWorkload(w)
 		if out.err != "" {
@@ -824,6 +890,15 @@ func main() {
 		for len(all) < perWork && n > out.openIdx {
 			all = append(all, r.Range(out.openIdx, n))
 		}
+		// right after a write acknowledged with Sync returned: the weakest image (unsynced tails lost) must hold it
+		nextra := 0
+		for _, b := range out.batches {
+			if b.OK && b.Sync && b.AckIdx >= out.openIdx && b.AckIdx <= n && nextra < 120 && (len(b.Recs) == 1 || r.Chance(1, 4)) {
+				nextra++
+				jobs <- job{w: w, out: out, i: b.AckIdx, pol: vstor.TailLost, van: false, ps: r.Uint64()}
+			}
+		}
+		res.Count("crash_points_right_after_a_synced_ack", nextra)
 		for _, i := range all {
 			pol := vstor.TailPolicy(r.Intn(int(vstor.NumTailPolicies)))
 			jobs <- job{w: w, out: out, i: i, pol: pol, van: r.Chance(1, 4), ps: r.Uint64(), us: r.Chance(1, 10), nest: r.Chance(1, 12)}
